@@ -300,6 +300,7 @@ KERNELS = [
     ('FuncCore_ctor', None, ['yaclib/algo/detail/func_core.hpp'], 'yaclib::detail::FuncCore', 'func_core.hpp', 'FuncCore<Func>', 0),
     ('PromiseCore_Call', None, ['yaclib/algo/detail/promise_core.hpp'], 'yaclib::detail::PromiseCore', 'promise_core.hpp', 'Call', 0),
     ('PromiseCore_Drop', None, ['yaclib/algo/detail/promise_core.hpp'], 'yaclib::detail::PromiseCore', 'promise_core.hpp', 'Drop', 0),
+    ('PromiseCore_Here', None, ['yaclib/algo/detail/promise_core.hpp'], 'yaclib::detail::PromiseCore', 'promise_core.hpp', 'Here', 0),
     ('ReadyCore_ctor', None, ['yaclib/lazy/make.hpp'], 'yaclib::detail::ReadyCore', 'lazy/make.hpp', 'ReadyCore<V, E>', 'template'),
     ('ReadyCore_Call', None, ['yaclib/lazy/make.hpp'], 'yaclib::detail::ReadyCore', 'lazy/make.hpp', 'Call', 0),
     ('ReadyCore_Drop', None, ['yaclib/lazy/make.hpp'], 'yaclib::detail::ReadyCore', 'lazy/make.hpp', 'Drop', 0),
